@@ -80,6 +80,7 @@ type cfgT struct {
 	realStop []bool
 	withX    bool // one more client (index nCl) that reaches the relay through relay R2
 	r2Lim    bool
+	cold     bool // no warm-up: clients are not connected beforehand, the prologue may carry faults (first contact inside the requests)
 	mixed    bool // X may also hold a direct connection (added / dropped by operations)
 	nPro     int
 	ops      []opT
@@ -110,7 +111,7 @@ func (c *cfgT) String() string {
 	if c.limited {
 		lim = fmt.Sprintf("limit(data=%d,dur=%v)", c.limData, c.limDur)
 	}
-	s := fmt.Sprintf("sec=%s link=%d stratum=%d maxRes=%d perIP=%d perASN=%d maxCirc=%d ttl=%v %s buf=%d acl(rsv=%d,conn=%d>%d) clients=", c.secu, c.mode, c.stratum,
+	s := fmt.Sprintf("cold=%v sec=%s link=%d stratum=%d maxRes=%d perIP=%d perASN=%d maxCirc=%d ttl=%v %s buf=%d acl(rsv=%d,conn=%d>%d) clients=", c.cold, c.secu, c.mode, c.stratum,
 		c.maxRes, c.perIP, c.perASN, c.maxCirc, c.ttl, lim, c.bufSize, c.denyRsv, c.denySrc, c.denyDst)
 	for i := 0; i < c.nCl; i++ {
 		k := "raw"
@@ -167,8 +168,15 @@ func drawCfg(g simrt.Gen) *cfgT {
 	c.mixed = c.withX && !g.Chance(1, 3)
 	// prologue: the first clients reserve, so that later CONNECTs mostly aim at reservation holders
 	c.nPro = 1 + g.Int(3)
+	c.cold = g.Chance(1, 3)
 	for i := 0; i < c.nPro; i++ {
-		c.ops = append(c.ops, opT{kind: opReserve, a: i, raw: g.Bool()})
+		op := opT{kind: opReserve, a: i, raw: g.Bool()}
+		if c.cold && c.stratum == 1 {
+			// cold runs: the very first hop stream / reservation / connection may already meet the fault
+			op.fault = []int{faultNone, faultHop, faultRc, faultIO}[g.Weighted(3, 1, 1, 2)]
+			drawFaultArgs(g, &op)
+		}
+		c.ops = append(c.ops, op)
 	}
 	nOps := 3 + g.Int(9)
 	for i := 0; i < nOps; i++ {
@@ -225,6 +233,11 @@ func drawOp(g simrt.Gen, c *cfgT, batchOK bool) opT {
 			op.sub = append(op.sub, s)
 		}
 	}
+	drawFaultArgs(g, &op)
+	return op
+}
+
+func drawFaultArgs(g simrt.Gen, op *opT) {
 	switch op.fault {
 	case faultHop:
 		op.hop = hopPlan(1 + g.Int(int(nHopPlans)-1))
@@ -238,7 +251,6 @@ func drawOp(g simrt.Gen, c *cfgT, batchOK bool) opT {
 		op.ioOnDst = g.Bool()
 		op.ioK = 1 + g.Int(12)
 	}
-	return op
 }
 
 // drawPair draws an actor a and a distinct partner b; three times out of four b is one of the
